@@ -214,6 +214,8 @@ M['names_with_operators'] = '''  <inputData name="a+b" id="_ab"><variable typeRe
   <inputData name="x - 1" id="_xm"><variable typeRef="number" name="x - 1"/></inputData>
 ''' + decision('<literalExpression><text>a+b + if then + x - 1</text></literalExpression>', extra='<informationRequirement id="_q1"><requiredInput href="#_ab"/></informationRequirement><informationRequirement id="_q2"><requiredInput href="#_it"/></informationRequirement><informationRequirement id="_q3"><requiredInput href="#_xm"/></informationRequirement>\n    ')
 M['cdata_comments_entities'] = decision('<literalExpression><text><![CDATA[if x < 3 then "a&b" else s]]><!-- c -->&#32;+ &quot;q&quot;<?pi x?></text></literalExpression>')
+M['deep_list_literal'] = decision('<literalExpression><text>' + '[' * 40 + 'x' + ']' * 40 + '</text></literalExpression>')
+M['deep_list_passed_through'] = decision('<literalExpression><text>' + '[' * 40 + 'x' + ']' * 40 + '</text></literalExpression>') + decision('<literalExpression><text>d</text></literalExpression>', name='e', k='e', typ='number', extra='<informationRequirement id="_rd"><requiredDecision href="#_d"/></informationRequirement>\n    ')
 M['deep_nesting'] = decision('<context>' * 0 + ''.join('<list>' for _ in range(24)) + '<literalExpression><text>x</text></literalExpression>' + ''.join('</list>' for _ in range(24)))
 M['deep_context_nesting'] = decision(''.join('<context><contextEntry><variable name="a"/>' for _ in range(16)) + '<literalExpression><text>x</text></literalExpression>' + ''.join('</contextEntry></context>' for _ in range(16)))
 M['long_feel_expression'] = decision('<literalExpression><text>' + ' + '.join(['x'] * 80) + '</text></literalExpression>')
